@@ -12,6 +12,9 @@ Local Open Scope N_scope.
 Definition escape (x : pystr) : pystr :=
   replace1 60 (s "&lt;") (replace1 62 (s "&gt;") (replace1 38 (s "&amp;") x)).
 
+(** escape(text, {CR: "&#13;"}) — content and tail of both exporters *)
+Definition escape_text (x : pystr) : pystr := replace1 13 (s "&#13;") (escape x).
+
 Definition escape_attr (x : pystr) : pystr :=
   replace1 13 (s "&#13;") (replace1 10 (s "&#10;") (replace1 9 (s "&#9;")
     (replace1 34 (s "&quot;") (escape x)))).
@@ -83,12 +86,12 @@ Fixpoint to_xml (parent : option (list (pystr * pystr))) (level : nat) (skip_ns 
         else (indent ++ [60] ++ tag ++ attributes ++ [62] ++ nl,
               indent ++ s "</" ++ tag ++ [62] ++ nl)
     | Some c =>
-        (indent ++ [60] ++ tag ++ attributes ++ [62] ++ escape c,
+        (indent ++ [60] ++ tag ++ attributes ++ [62] ++ escape_text c,
          s "</" ++ tag ++ [62] ++ nl)
     end in
   let close_tag := match n_tail d with
                    | None => close0
-                   | Some tl => close0 ++ escape tl
+                   | Some tl => close0 ++ escape_text tl
                    end in
   open_tag ++ flat_map (to_xml (Some (n_nsmap d)) (S level) skip_ns) kids ++ close_tag.
 
@@ -108,7 +111,7 @@ Definition preescaped (c : pystr) : bool :=
 
 Definition eml_content (c : pystr) : pystr :=
   if preescaped c then c
-  else replace (s "&lt;/para&gt;") (s "</para>") (replace (s "&lt;para&gt;") (s "<para>") (escape c)).
+  else replace (s "&lt;/para&gt;") (s "</para>") (replace (s "&lt;para&gt;") (s "<para>") (escape_text c)).
 
 Fixpoint eml_to_xml (level : nat) (t : ftree) {struct t} : pystr :=
   let 'FT d kids := t in
